@@ -1,5 +1,7 @@
 import SphericalVerif.Props.C17
 import SphericalVerif.Props.HKernel
+import SphericalVerif.Props.GenH
+import SphericalVerif.Props.GenFill
 #print axioms C17.objDvec_eq_map
 #print axioms C17.objYvec_eq_map
 #print axioms C17.objDvec_getElem
@@ -8,3 +10,17 @@ import SphericalVerif.Props.HKernel
 #print axioms C17.evaluateHornerK_eq
 #print axioms HKernel.runH_pure
 #print axioms HKernel.runH_size_indep
+#print axioms GenH.tables
+#print axioms GenH.genH_sim
+#print axioms GenH.genH_refines
+#print axioms GenH.genH_pure
+#print axioms GenH.genH_size_indep
+#print axioms GenH.tabOK_ranges
+#print axioms GenFill.eps_eq
+#print axioms GenFill.hindex_rep
+#print axioms GenFill.rep_valid
+#print axioms GenFill.hat_gen
+#print axioms GenFill.gen_d_entry
+#print axioms GenFill.gen_D_entry
+#print axioms GenFill.gen_Y_entry
+#print axioms GenFill.gen_d_eq_docd
